@@ -1094,6 +1094,46 @@ pub fn int_entry_case(rng: &mut Rng, im: u8, nmi: bool, halted: bool) -> Case {
 // the shared sweep (C01 and C03 differ only in what `diff` compares)
 // ---------------------------------------------------------------------------------------------
 
+thread_local! {
+    /// (label, T-states) classes seen so far, kept to check afterwards that every timing variant was reached
+    static SEEN: std::cell::RefCell<std::collections::BTreeSet<String>> = std::cell::RefCell::new(Default::default());
+}
+
+/// every timing variant the property names must have been observed on the real code
+fn variant_coverage(rep: &mut Report) {
+    let mut want: Vec<String> = vec![];
+    for op in ["edb0", "edb8", "edb1", "edb9", "edb2", "edba", "edb3", "edbb"] {
+        want.push(format!("{} T=16", op));
+        want.push(format!("{} T=21", op));
+    }
+    want.push("10 T=8".into());
+    want.push("10 T=13".into());
+    for op in [0x20u8, 0x28, 0x30, 0x38] {
+        want.push(format!("{:02x} T=7", op));
+        want.push(format!("{:02x} T=12", op));
+    }
+    for y in 0..8u8 {
+        want.push(format!("{:02x} T=5", 0xC0 | (y << 3)));
+        want.push(format!("{:02x} T=11", 0xC0 | (y << 3)));
+        want.push(format!("{:02x} T=10", 0xC4 | (y << 3)));
+        want.push(format!("{:02x} T=17", 0xC4 | (y << 3)));
+    }
+    for (l, t) in [("ddcb46", 20), ("fdcb7e", 20), ("ddcb06", 23), ("fdcbfe", 23), ("dd34", 23), ("fd36", 19), ("dd7e", 19),
+        ("cb46", 12), ("cb06", 15), ("e3", 19), ("dde3", 23), ("nmi", 15), ("int-im0", 17), ("int-im1", 17), ("int-im2", 23)]
+    {
+        want.push(format!("{} T={}", l, t));
+    }
+    let missing: Vec<J> = SEEN.with(|s| {
+        let s = s.borrow();
+        want.iter().filter(|w| !s.contains(*w)).map(|w| J::s(w.clone())).collect()
+    });
+    if !missing.is_empty() {
+        rep.notes.push("generator weakness: some timing variants were not reached in this run (see timing_variants_missing)".into());
+    }
+    rep.extra.push(("timing_variants_checked".into(), J::I(want.len() as i64)));
+    rep.extra.push(("timing_variants_missing".into(), J::A(missing)));
+}
+
 pub fn run_batch(model: &mut Model, rep: &mut Report, mode: Mode, cases: &[Case], hist: &str) {
     let mut lines = vec![];
     for c in cases {
@@ -1108,6 +1148,7 @@ pub fn run_batch(model: &mut Model, rep: &mut Report, mode: Mode, cases: &[Case]
             rep.eval();
             let t: u64 = evs.iter().map(|e| ev_tstates(e)).sum();
             rep.class(format!("{} T={}", label, t));
+            SEEN.with(|s| s.borrow_mut().insert(format!("{} T={}", label, t)));
             rep.count(hist, format!("T={:02}", t));
         });
         k += n;
@@ -1120,8 +1161,193 @@ pub fn run_batch(model: &mut Model, rep: &mut Report, mode: Mode, cases: &[Case]
     }
 }
 
+
+const TABLE_NAMES: [(&str, usize); 8] = [
+    ("HALF_CARRY_ADD_TABLE", 8),
+    ("HALF_CARRY_SUB_TABLE", 8),
+    ("OVERFLOW_ADD_TABLE", 8),
+    ("OVERFLOW_SUB_TABLE", 8),
+    ("PARITY_TABLE", 256),
+    ("F3F5_TABLE", 256),
+    ("SZF3F5_TABLE", 256),
+    ("SZPF3F5_TABLE", 256),
+];
+
+/// `pub const NAME: [u8; N] = [ ... ];` out of tables/mod.rs; None if the text cannot be located
+fn parse_table(src: &str, name: &str, n: usize) -> Option<Vec<u8>> {
+    let head = format!("pub const {}: [u8; {}] = [", name, n);
+    let start = src.find(&head)? + head.len();
+    let end = start + src[start..].find("];")?;
+    let mut vals = vec![];
+    for tok in src[start..end].split(',') {
+        let t = tok.trim();
+        if t.is_empty() {
+            continue;
+        }
+        let t = t.strip_prefix("0x").or_else(|| t.strip_prefix("0X"))?;
+        vals.push(u8::from_str_radix(t, 16).ok()?);
+    }
+    if vals.len() == n {
+        Some(vals)
+    } else {
+        None
+    }
+}
+
+/// Textual tie (DESIGN 3b): the flag tables in the working tree against the committed Lean copy the
+/// table theorems are proved about. A table that cannot be located is skipped (never an alarm);
+/// a located table that differs makes the run add the exhaustive operand sweeps.
+pub fn table_tie(rep: &mut Report, model: &mut Model) -> bool {
+    let path = ".cache/repo/rustzx-z80/src/tables/mod.rs";
+    let mut used = vec![];
+    let mut skipped = vec![];
+    let mut differing = vec![];
+    let lean: Vec<Vec<u8>> = model.ask("t").split(' ').map(unhex).collect();
+    match std::fs::read_to_string(path) {
+        Ok(src) if lean.len() == 8 => {
+            for (i, (name, n)) in TABLE_NAMES.iter().enumerate() {
+                match parse_table(&src, name, *n) {
+                    None => skipped.push(J::s(*name)),
+                    Some(vals) => {
+                        used.push(J::s(*name));
+                        for k in 0..*n {
+                            if lean[i].get(k) != Some(&vals[k]) {
+                                differing.push(J::s(format!("{}[{}]", name, k)));
+                            }
+                        }
+                    }
+                }
+            }
+        }
+        _ => {
+            for (name, _) in TABLE_NAMES.iter() {
+                skipped.push(J::s(*name));
+            }
+        }
+    }
+    let differs = !differing.is_empty();
+    rep.extra.push((
+        "extractor".into(),
+        J::obj(vec![
+            ("source", J::s(path)),
+            ("used", J::A(used)),
+            ("skipped", J::A(skipped)),
+            ("differs_from_committed_copy", J::A(differing)),
+        ]),
+    ));
+    if differs {
+        rep.notes.push(
+            "flag tables in the working tree differ from lean/ZxVerif/Extracted/Z80Tables.lean: the table theorems \
+speak about the committed copy; exhaustive operand sweeps added to this run"
+                .into(),
+        );
+    }
+    differs
+}
+
+/// Exhaustive operand spaces of the table-driven instructions: 8 ALU ops x A x operand x carry,
+/// INC/DEC x operand x F, CB rotates x operand x carry, DAA x A x (N,H,C), NEG x A, CPI x A x (HL),
+/// ADC/SBC HL over boundary-rich 16-bit operands.
+pub fn exhaustive_operands(model: &mut Model, rep: &mut Report, mode: Mode) {
+    let base = |pc: u16| {
+        let mut st = St::default();
+        st.w[PC] = pc;
+        st.w[SP] = 0xF000;
+        st
+    };
+    let one = |st: St, code: Vec<u8>, extra: Vec<(u16, Vec<u8>)>| {
+        let mut mem = extra;
+        mem.push((st.w[PC], code));
+        Case { st, seed: 0, io: vec![], mem, steps: vec![Step { lines: 0, bus: 0xFF }] }
+    };
+    let mut batch: Vec<Case> = vec![];
+    let mut flush = |batch: &mut Vec<Case>, model: &mut Model, rep: &mut Report, force: bool| {
+        if batch.len() >= 512 || (force && !batch.is_empty()) {
+            run_batch(model, rep, mode, batch, "tstates_exhaustive_operands");
+            batch.clear();
+        }
+    };
+    for op in 0..8u8 {
+        for a in 0..=255u8 {
+            for b in 0..=255u8 {
+                for c in 0..2u8 {
+                    let mut st = base(0x8000);
+                    st.w[AF] = ((a as u16) << 8) | c as u16;
+                    st.w[BC] = (b as u16) << 8;
+                    batch.push(one(st, vec![0x80 | (op << 3)], vec![]));
+                    flush(&mut batch, model, rep, false);
+                }
+            }
+        }
+    }
+    for x in 0..=255u8 {
+        for f in [0x00u8, 0xFF, 0x01, 0xD7] {
+            for opc in [0x04u8, 0x05] {
+                let mut st = base(0x8000);
+                st.w[AF] = f as u16;
+                st.w[BC] = (x as u16) << 8;
+                batch.push(one(st, vec![opc], vec![]));
+            }
+            for k in 0..8u8 {
+                let mut st = base(0x8000);
+                st.w[AF] = f as u16;
+                st.w[BC] = (x as u16) << 8;
+                batch.push(one(st, vec![0xCB, k << 3], vec![]));
+            }
+            for opc in [0x07u8, 0x0F, 0x17, 0x1F, 0x2F, 0x37, 0x3F] {
+                let mut st = base(0x8000);
+                st.w[AF] = ((x as u16) << 8) | f as u16;
+                st.lq = f ^ 0x28;
+                batch.push(one(st, vec![opc], vec![]));
+            }
+            flush(&mut batch, model, rep, false);
+        }
+        for nhc in 0..8u8 {
+            let f = ((nhc & 1) * 0x01) | (((nhc >> 1) & 1) * 0x10) | (((nhc >> 2) & 1) * 0x02);
+            let mut st = base(0x8000);
+            st.w[AF] = ((x as u16) << 8) | f as u16;
+            batch.push(one(st, vec![0x27], vec![]));
+        }
+        let mut st = base(0x8000);
+        st.w[AF] = (x as u16) << 8;
+        batch.push(one(st, vec![0xED, 0x44], vec![]));
+        for m in 0..=255u8 {
+            let mut st = base(0x8000);
+            st.w[AF] = (x as u16) << 8;
+            st.w[HL] = 0x9000;
+            st.w[BC] = 0x0002;
+            batch.push(one(st, vec![0xED, 0xA1], vec![(0x9000, vec![m])]));
+            flush(&mut batch, model, rep, false);
+        }
+    }
+    let edges: [u16; 12] = [0x0000, 0x0001, 0x0FFF, 0x1000, 0x7FFF, 0x8000, 0x8001, 0xF000, 0xFFFF, 0x0800, 0x07FF, 0xEFFF];
+    for &h in edges.iter() {
+        for &r in edges.iter() {
+            for c in 0..2u16 {
+                for opc in [0x42u8, 0x4A] {
+                    let mut st = base(0x8000);
+                    st.w[AF] = c;
+                    st.w[HL] = h;
+                    st.w[BC] = r;
+                    batch.push(one(st, vec![0xED, opc], vec![]));
+                }
+                let mut st = base(0x8000);
+                st.w[AF] = c;
+                st.w[HL] = h;
+                st.w[BC] = r;
+                batch.push(one(st, vec![0x09], vec![]));
+            }
+        }
+    }
+    flush(&mut batch, model, rep, true);
+}
+
 pub fn sweep(o: &Opts, mode: Mode, rep: &mut Report, model: &mut Model) {
     let mut rng = Rng::new(o.seed ^ 0xC01);
+    let tables_differ = table_tie(rep, model);
+    if o.thorough() || tables_differ {
+        exhaustive_operands(model, rep, mode);
+    }
     let random_states = o.n(13, 400) as usize;
     let kinds = STATE_KINDS.len() + random_states;
     // 1. all 1792 encodings x state kinds
@@ -1164,6 +1390,7 @@ pub fn sweep(o: &Opts, mode: Mode, rep: &mut Report, model: &mut Model) {
         }
     }
     run_batch(model, rep, mode, &cases, "tstates_interrupt_entry");
+    variant_coverage(rep);
     rep.extra.push(("encodings".into(), J::I(1792)));
     rep.extra.push(("states_per_encoding".into(), J::I(kinds as i64)));
     rep.extra.push(("sequences".into(), J::I(seqs as i64)));
